@@ -22,10 +22,10 @@ theorem tOk_of_inputTy {S : Schema} {Q : Pos → Prop} {t : GType} (h : InputTy 
 
 /-- a schema without faults is fine for every `Q` -/
 theorem schemaQ_of_facts {S : Schema} (h : SchemaFacts S) (Q : Pos → Prop) : SchemaQ S Q where
-  inputs hn f hf := tOk_of_inputTy (h.inputTy _ (List.mem_of_find?_eq_some hn) f hf)
-  fieldArgs hn fd hfd a ha := tOk_of_inputTy ((h.fieldTy _ (List.mem_of_find?_eq_some hn) fd hfd).2 a ha)
+  inputs hn _ f hf := tOk_of_inputTy (h.inputTy _ (List.mem_of_find?_eq_some hn) f hf)
+  fieldArgs hn _ fd hfd a ha := tOk_of_inputTy ((h.fieldTy _ (List.mem_of_find?_eq_some hn) fd hfd).2 a ha)
   dirArgs hn a ha := tOk_of_inputTy (h.dirArgs _ (List.mem_of_find?_eq_some hn) a ha)
-  members hn m hm := Or.inl (h.members _ (List.mem_of_find?_eq_some hn) m hm)
+  members hn _ m hm := Or.inl (h.members _ (List.mem_of_find?_eq_some hn) m hm)
 
 theorem schemaQ_of_valid {S : Schema} (h : SchemaValid S) (Q : Pos → Prop) : SchemaQ S Q :=
   schemaQ_of_facts (schemaFacts_of_valid h) Q
